@@ -249,7 +249,16 @@ func (g *vgen) fillElem(v reflect.Value, ann string, depth int) {
 			g.fillStruct(v, depth+1)
 		}
 	case "wire":
-		v.Set(reflect.ValueOf(enc.Wire{g.bytesOf(g.blen())}))
+		// a Wire value is a list of chunks: one chunk, several chunks, empty chunks in between
+		switch g.r.Intn(4) {
+		case 0:
+			a, b := g.bytesOf(g.blen()), g.bytesOf(g.blen())
+			v.Set(reflect.ValueOf(enc.Wire{a, []byte{}, b}))
+		case 1:
+			v.Set(reflect.ValueOf(enc.Wire{[]byte{}, g.bytesOf(g.blen()), g.bytesOf(1 + g.r.Intn(4))}))
+		default:
+			v.Set(reflect.ValueOf(enc.Wire{g.bytesOf(g.blen())}))
+		}
 	default:
 		g.fill(v, ann, depth)
 	}
@@ -663,6 +672,32 @@ func c13One(c *h.Ctx, id string, m *reg.Model, r *rand.Rand, k int) {
 		}
 	}
 	c.Count("roundtrips", 1)
+	// decoding straight from the encoder's own wire (no copies) must leave that wire untouched:
+	// the caller may join, send or decode it again
+	if len(wire) > 0 {
+		var out2 any
+		var err2 error
+		pi := h.Guard(func() { out2, err2 = m.Parse(enc.NewWireReader(wire), false) })
+		switch {
+		case pi != nil:
+			c.Violation("C13:panic:parse:"+m.ID()+":"+pi.Frame+":"+pi.Class, id, "parser panicked on its own encoder's wire: "+pi.Value, desc)
+			return
+		case err2 != nil:
+			c.Violation("C13:roundtrip-error:"+m.ID()+":encoder-wire:"+errClass(err2), id, "parser rejected its own encoder's wire: "+err2.Error(), desc)
+			return
+		default:
+			if d := same(out2); d != "" {
+				c.Violation("C13:roundtrip-differs:"+m.ID()+":encoder-wire", id, "decoded value differs at "+d, desc)
+				return
+			}
+		}
+		if after := wire.Join(); !bytes.Equal(after, b) {
+			desc["wire_after_decoding"] = h.Hex(after)
+			c.Violation("C13:decoding-modifies-the-wire:"+m.ID(), id, fmt.Sprintf("after decoding from the encoder's wire that wire joins to %d bytes, it encoded %d", len(after), len(b)), desc)
+			return
+		}
+		c.Count("encoder_wire_decodes", 1)
+	}
 	// unknown element insertion at every top-level boundary
 	used := c13UsedTypes(m)
 	bounds := []int{0}
